@@ -1105,6 +1105,32 @@ func CheckSignatureFromKey(publicKey interface{}, algo SignatureAlgorithm, signe
 	}
 	digest := hash(hashType, signed)
 
+	// The signature algorithm determines the type of key that can have
+	// produced the signature; a key of another type must not be tried.
+	var pubKeyAlgo PublicKeyAlgorithm
+	for _, details := range signatureAlgorithmDetails {
+		if details.algo == algo {
+			pubKeyAlgo = details.pubKeyAlgo
+			break
+		}
+	}
+	var keyAlgo PublicKeyAlgorithm
+	switch publicKey.(type) {
+	case *rsa.PublicKey:
+		keyAlgo = RSA
+	case *dsa.PublicKey:
+		keyAlgo = DSA
+	case *ecdsa.PublicKey, *AugmentedECDSA:
+		keyAlgo = ECDSA
+	case ed25519.PublicKey:
+		keyAlgo = Ed25519
+	default:
+		return ErrUnsupportedAlgorithm
+	}
+	if keyAlgo != pubKeyAlgo {
+		return fmt.Errorf("x509: signature algorithm %v does not match public key of type %T", algo, publicKey)
+	}
+
 	switch pub := publicKey.(type) {
 	case *rsa.PublicKey:
 		if algo.isRSAPSS() {
